@@ -1018,7 +1018,7 @@ class AttrParser(BaseParser):
     def _parse_dialect_resource_handle(
         self, dialect_name: str, interface: OpAsmDialectInterface
     ) -> str:
-        key = self.parse_identifier(" for resource handle")
+        key = self.parse_identifier_or_str_literal(" for resource handle")
 
         if (dialect_name, key) not in self.dialect_resources:
             key = interface.declare_resource(key)
